@@ -18,6 +18,26 @@ fn file_for(i: usize, n: usize, edges: u32, dup: bool, changed: bool) -> XsdFile
     file_for_ns(i, n, edges, dup, changed, false)
 }
 
+/// every file additionally declares a global element ZvE<i>, and for every file j it imports a
+/// type ZvD<i>To<j> that extends j's ZvT<j> and holds a ref= to j's ZvE<j>: the components of a file
+/// then NEED the components of the files it imports, however those were reached before
+fn file_with_cross_references(i: usize, n: usize, edges: u32) -> XsdFile {
+    let mut f = file_for_ns(i, n, edges, false, false, false);
+    f.comps.push(anon_element(&format!("ZvE{i}"), vec![el("w", TypeRef::b("string"))]));
+    for j in 0..n {
+        if j != i && edges & (1 << (i * n + j)) != 0 {
+            f.prefixes.push((format!("t{j}"), ns(j)));
+            f.comps.push(Comp::Complex(ComplexType {
+                name: format!("ZvD{i}To{j}"),
+                base: Some(QName::new(&ns(j), &format!("ZvT{j}"))),
+                seq: Some(Seq::of(vec![el("own", TypeRef::b("string")), Particle::Ref(ElemRef { target: QName::new(&ns(j), &format!("ZvE{j}")), min: 0, max: Max::N(1) })])),
+                ..Default::default()
+            }));
+        }
+    }
+    f
+}
+
 /// `shared`: every file but the start file lives in ONE namespace (several files, one namespace,
 /// imported under different schemaLocations)
 fn file_for_ns(i: usize, n: usize, edges: u32, dup: bool, changed: bool, shared: bool) -> XsdFile {
@@ -122,6 +142,7 @@ enum Variant {
     DupEdges,
     WsdlStart,
     SharedNs,
+    CrossReferences,
 }
 
 fn variant_name(v: Variant) -> &'static str {
@@ -134,6 +155,7 @@ fn variant_name(v: Variant) -> &'static str {
         Variant::DupEdges => "duplicate-import-edges",
         Variant::WsdlStart => "wsdl-start",
         Variant::SharedNs => "files-share-one-namespace",
+        Variant::CrossReferences => "cross-file-bases-and-refs",
     }
 }
 
@@ -149,6 +171,7 @@ fn build_case(n: usize, edges: u32, v: Variant) -> Case {
             Variant::NonSchema if unreachable => "<?xml version=\"1.0\"?><catalog><entry id=\"1\"/></catalog>".to_string(),
             Variant::DupEdges => print_xsd(&file_for(i, n, edges, true, false)),
             Variant::SharedNs => print_xsd(&file_for_ns(i, n, edges, false, false, true)),
+            Variant::CrossReferences => print_xsd(&file_with_cross_references(i, n, edges)),
             _ => print_xsd(&file_for(i, n, edges, false, false)),
         };
         files.push((format!("f{i}.xsd"), text));
@@ -250,6 +273,24 @@ fn judge(job: &Job, out: &Outcome, base_hash: Option<&str>) -> (Vec<Violation>, 
             }
         }
     }
+    if job.variant == Variant::CrossReferences {
+        for i in 0..job.n {
+            let want = if r[i] { 1 } else { 0 };
+            let mut names = vec![format!("ZvE{i}")];
+            for j in 0..job.n {
+                if j != i && job.edges & (1 << (i * job.n + j)) != 0 {
+                    names.push(format!("ZvD{i}To{j}"));
+                }
+            }
+            for nm in names {
+                let c = counts.remove(&nm).unwrap_or(0);
+                if c != want {
+                    let clause = if r[i] { "import.multiplicity" } else { "import.unreachable" };
+                    vs.push(mk_violation(job, clause, Some(i), format!("{nm} x{want}"), format!("{nm} x{c}")).ctx("component", if nm.starts_with("ZvD") { "ZvD" } else { "ZvE" }));
+                }
+            }
+        }
+    }
     if job.variant == Variant::WsdlStart {
         let c = counts.remove("ZvW").unwrap_or(0);
         if c != 1 {
@@ -288,9 +329,9 @@ pub fn check(tier: &str) -> i32 {
         let variants: Vec<Variant> = if n >= 5 {
             vec![Variant::Base, Variant::Malformed]
         } else if n <= 3 || tier == "thorough" {
-            vec![Variant::Base, Variant::Removed, Variant::Changed, Variant::Malformed, Variant::NonSchema, Variant::DupEdges, Variant::WsdlStart, Variant::SharedNs]
+            vec![Variant::Base, Variant::Removed, Variant::Changed, Variant::Malformed, Variant::NonSchema, Variant::DupEdges, Variant::WsdlStart, Variant::SharedNs, Variant::CrossReferences]
         } else {
-            vec![Variant::Base, Variant::Malformed, Variant::Removed, Variant::SharedNs]
+            vec![Variant::Base, Variant::Malformed, Variant::Removed, Variant::SharedNs, Variant::CrossReferences]
         };
         let mut n_states = 0u64;
         for chunk in graphs.chunks(4096) {
@@ -307,6 +348,10 @@ pub fn check(tier: &str) -> i32 {
                         continue;
                     }
                     if v == Variant::SharedNs && n < 3 {
+                        continue;
+                    }
+                    // references across an import CYCLE are finding F-C08-1 (C08's); here: acyclic graphs
+                    if v == Variant::CrossReferences && (e == 0 || graph_features(n, e).0 != "acyclic") {
                         continue;
                     }
                     jobs.push(Job { n, edges: e, variant: v });
@@ -363,6 +408,7 @@ pub fn check(tier: &str) -> i32 {
         rep.set("caps_hit", json!(["stopped expanding after 25 unlisted violations"]));
     }
     rep.assume("start file fixed to file 0: the files are identical up to their index, so every (graph, start) pair is isomorphic to one explored (relabelling symmetry)");
+    rep.assume("variant cross-file-bases-and-refs (a type per import edge that extends the imported file's type and refs its global element) is run on the graphs whose reachable part is acyclic; across import cycles such references are finding F-C08-1");
     rep.assume("component multiplicity is read lexically (identifier after the `struct` keyword); the component names ZvT<i>/ZvS<i> occur nowhere else");
     rep.assume("random graphs over more than four files (quantifier text) are not explored: that would be sampling");
     rep.finish()
